@@ -229,6 +229,7 @@ def check_allocators(prog, rep, rule):
                                       'a node of the incoming graph is inserted into the store before the whole graph has been '
                                       'validated: an import that fails part-way leaves nodes behind while the id counter is not '
                                       'advanced, and the next insertion reuses their internal ids')
+    check_allocator_paths(prog, rep, rule)
     # ---- disjoint store ----
     dj = storage_class(prog, DISJ_SHELL)
     dmod = dj.module
@@ -308,6 +309,76 @@ def check_allocators(prog, rep, rule):
         relabel = [n for n in walk_no_nested(fn) if isinstance(n, ast.Call) and call_name(n) == 'convert_node_labels_to_integers']
         if not relabel or ast.unparse(relabel[0].args[1] if len(relabel[0].args) > 1 else ast.Constant(0)) != '1':
             rep.violation(rule, loc(dmod, fn), f'{dj.name}.{name}', 'incoming graph not relabelled from 1', 'imported nodes must get dense ids from 1')
+
+
+def check_allocator_paths(prog, rep, rule):
+    """Path rule on the importing operations of both stores: whenever the relabelled incoming nodes are put into the store,
+    the id allocator has been / is moved past them on that same path. Shared store: the insertion is dominated by an advance
+    of ``start_id`` that itself follows the relabelling (ids are taken from the value the counter had when relabelling).
+    One-graph-per-id store: no path from the filling of ``self.graphs[graph_id]`` to the normal exit avoids the (re)setting of
+    ``graph_node_ids[graph_id]``."""
+    from .cfg import CFG
+    st = storage_class(prog, SHARED_SHELL)
+    for name in ('add_graph', 'add_graph_direct'):
+        fn0 = st.methods.get(name)
+        if fn0 is None:
+            raise AnalysisError(f'{st.name}.{name} vanished')
+        fn = inline(prog, st, fn0)
+        fq = f'{st.name}.{name}'
+        cfg = CFG(fn)
+        dom = cfg.dominators()
+        relabel = [n for n in walk_no_nested(fn) if isinstance(n, ast.Call) and call_name(n) == 'convert_node_labels_to_integers']
+        adv = [n for n in walk_no_nested(fn) if isinstance(n, (ast.Assign, ast.AugAssign)) and
+               any(ast.unparse(t) == 'self.start_id' for t in (n.targets if isinstance(n, ast.Assign) else [n.target]))]
+        ins = [n for n in walk_no_nested(fn) if isinstance(n, ast.Call) and isinstance(n.func, ast.Attribute)
+               and ast.unparse(n.func.value) == 'self.graphs' and n.func.attr in ('add_nodes_from', 'add_node', 'update')]
+        if not relabel or not adv or not ins:
+            continue            # reported by the form checks
+        rl = flow.node_of(cfg, relabel[0])
+        advn = [flow.node_of(cfg, a) for a in adv]
+        for i in ins:
+            inode = flow.node_of(cfg, i)
+            if inode is None or rl is None or any(a is None for a in advn):
+                raise AnalysisError(f'{fq}: statement not found in the flow graph')
+            rep.instance(rule, f'{fq}: {norm(i, 60)} needs the counter advanced on every path')
+            before = [a for a in advn if a.id in dom.get(inode.id, set())]
+            after_ok = not cfg.paths_avoiding(inode, cfg.exit, {a.id for a in advn})
+            if not before and not after_ok:
+                rep.violation(rule, loc(st.module, i), fq, f'{norm(i, 60)} on a path that does not advance self.start_id',
+                              'the relabelled nodes are inserted on a path that leaves the id counter where it was (for instance when the '
+                              'incoming graph replaces one stored under the same id): the next import or node creation of ANY graph in '
+                              'the store is handed internal ids that are in use, and overwrites those nodes')
+        for a, an in zip(adv, advn):
+            if rl.id not in dom.get(an.id, set()):
+                rep.violation(rule, loc(st.module, a), fq, f'{norm(a, 60)} is not preceded by the relabelling on every path',
+                              'the incoming nodes take their ids from the value the counter has when they are relabelled; a counter '
+                              'advanced before that (or on a path without relabelling) no longer marks the end of the ids in use')
+    dj = storage_class(prog, DISJ_SHELL)
+    for name in ('add_graph', 'add_graph_direct'):
+        fn0 = dj.methods.get(name)
+        if fn0 is None:
+            raise AnalysisError(f'{dj.name}.{name} vanished')
+        fn = inline(prog, dj, fn0)
+        fq = f'{dj.name}.{name}'
+        cfg = CFG(fn)
+        sets = [n for n in walk_no_nested(fn) if isinstance(n, (ast.Assign, ast.AugAssign)) and
+                any(ast.unparse(t).startswith('self.graph_node_ids[') for t in (n.targets if isinstance(n, ast.Assign) else [n.target]))]
+        fills = [n for n in walk_no_nested(fn) if isinstance(n, ast.Call) and isinstance(n.func, ast.Attribute) and n.func.attr == 'add_nodes_from']
+        fills += [n for n in walk_no_nested(fn) if isinstance(n, ast.Assign) and any(ast.unparse(t).startswith('self.graphs[') for t in n.targets)
+                  and not (isinstance(n.value, ast.Call) and call_name(n.value) == 'Graph' and not n.value.args)]
+        if not sets or not fills:
+            continue
+        setn = [flow.node_of(cfg, x) for x in sets]
+        for f_ in fills:
+            fnode = flow.node_of(cfg, f_)
+            if fnode is None or any(x is None for x in setn):
+                raise AnalysisError(f'{fq}: statement not found in the flow graph')
+            rep.instance(rule, f'{fq}: {norm(f_, 60)} needs the per-graph counter reset on every path')
+            if cfg.paths_avoiding(fnode, cfg.exit, {x.id for x in setn}):
+                rep.violation(rule, loc(dj.module, f_), fq, f'{norm(f_, 60)} on a path that does not reset self.graph_node_ids[graph_id]',
+                              'an import renumbers the nodes of the graph 1..n; on a path that keeps the old counter of that graph id '
+                              '(for instance when the id was used before) the counter can lie inside 1..n, and the next node added to '
+                              'the graph takes the internal id of an imported node and overwrites it')
 
 
 def _relabelled_names(fn):
